@@ -164,6 +164,8 @@ C11_Options(C, R) ==
 (* ---------------------------------------------------------------- C02 (recorded Radau runs) *)
 \* the three evaluations of every Newton iteration lie at the Radau IIA nodes of one attempted step (fact of the recorder)
 C02_RadauNodes(R) == R.nodes.has => R.nodes.ok
+\* an accepted Radau step comes out of a simplified-Newton iteration that converged (fact of the recorder from the hook lines)
+C02_RadauConverged(R) == R.nodes.has => R.nodes.conv_ok
 
 (* ---------------------------------------------------------------- C15 *)
 \* index-1 differential-algebraic problems (singular mass): Radau solves them, the algebraic constraint holds at every
